@@ -63,7 +63,7 @@ for name, path, old, new, check in M:
     if name == "C10-responder-hoisted":
         s = s.replace("\tconnReader := bufio.NewReader(tlsConn)\n", "\tconnReader := bufio.NewReader(tlsConn)\n\tvar tunnelResponder *responder.RawHTTPResponder\n")
     open(p, "w").write(s)
-    env = dict(os.environ, VERIF_REPO=WT)
+    env = dict(os.environ, VERIF_REPO=WT, VERIF_SCRATCH_OUT="/tmp/handmut-out")
     r = subprocess.run(["/verif/check", check, "quick"], env=env, stdout=subprocess.PIPE, stderr=subprocess.STDOUT, text=True, cwd="/verif")
     viol = [l for l in r.stdout.splitlines() if l.startswith("VIOLATION")]
     sigs = [l.strip()[:110] for l in r.stdout.splitlines() if l.startswith("  ") and ":" in l][:2]
